@@ -183,6 +183,8 @@ def check_call(qualname, args, fn_override=None):
                     unchanged = any(kw.arg == "unchanged" and _ev(kw.value, env) for kw in c.keywords)
                     raises_clauses.append((exc, bool(when), _src(c), unchanged))
                 elif f == "ensures":
+                    if any(kw.arg == "symbolic" for kw in c.keywords):
+                        continue          # clause about allocation/frames: meaningful to the prover only
                     col = _OldCollector()
                     ck = ("ens", id(c))
                     if ck in _code_cache:
